@@ -774,6 +774,9 @@ Error Message: {}
         instructions = m.get_text()
         m.get_binary()  # lang
         prompts = m.get_int()
+        # each prompt is a length-prefixed string plus a boolean (>= 5 bytes)
+        if prompts > len(m.get_remainder()) // 5:
+            raise SSHException("Prompt count exceeds packet size")
         prompt_list = []
         for i in range(prompts):
             prompt_list.append((m.get_text(), m.get_boolean()))
@@ -792,6 +795,9 @@ Error Message: {}
         if not self.transport.server_mode:
             raise SSHException("Illegal info response from server")
         n = m.get_int()
+        # each response is a length-prefixed string (>= 4 bytes)
+        if n > len(m.get_remainder()) // 4:
+            raise SSHException("Response count exceeds packet size")
         responses = []
         for i in range(n):
             responses.append(m.get_text())
